@@ -199,6 +199,71 @@ func checkC13(r *Report, known []Finding) {
 			}
 		}
 	}
+	// ---- (b2) capture scratch: optional groups that take part in one search and not in the next, failed attempts in between
+	{
+		t := r.Tie("Regex captures: aged value == fresh value over histories in which optional groups come and go")
+		tmpl := []string{`^(a+)(b)?a*c`, `^(a)?(b)?c`, `^(\w+)(?:=(\w+))? *;`, `(\d+)?-x`, `(a)?c+b`, `^(?:(a)|(b)|(ab))*c`, `^(\d+)(?:\.(\d+))?(?:-(\w+))?$`,
+			`(?P<sign>[+-])?\d+\.\d+`, `^(\w+?)(\d)?\w*;`, `(x)?(y)?z`, `^(?:(foo)|(bar))?baz`, `(a)|(b)|(c)`}
+		nb := np / 2
+		for i := 0; i < len(tmpl)+nb; i++ {
+			rng := root.Fork(uint64(i) + 70000)
+			var p string
+			if i < len(tmpl) {
+				p = tmpl[i]
+			} else {
+				p = "(" + GenPattern(rng, GenOpts{MaxDepth: 1, NoLook: true}) + ")?" + GenPattern(rng, GenOpts{MaxDepth: 1}) + "(" + GenPattern(rng, GenOpts{MaxDepth: 1, NoLook: true}) + ")?"
+				if rng.Bool() {
+					p = "^" + p
+				}
+			}
+			if _, err := regexp.Compile(p); err != nil {
+				continue
+			}
+			aged, err := coregex.Compile(p)
+			if err != nil {
+				continue
+			}
+			ast, _ := syntax.Parse(p, syntax.Perl)
+			strat := strategyOf(p)
+			for k := 0; k < 24; k++ {
+				b := 30
+				h := sampleMatch(rng, ast, nil, &b)
+				switch k % 4 {
+				case 1:
+					if len(h) > 0 {
+						h = h[:len(h)-1] // a failed (or shorter) attempt that has already written capture positions
+					}
+				case 2:
+					h = append([]byte("~ "), h...)
+				case 3:
+					h = append(h, h...)
+				}
+				if len(h) > 60 {
+					h = h[:60]
+				}
+				for _, o := range []Obs{obsSubmatch()[0], obsFindAll([]int{-1})[4]} {
+					t.Cases++
+					var a1, a2 string
+					res := guard(20*time.Second, func() string {
+						a1 = o.Fn(aged, h)
+						fresh, e := coregex.Compile(p)
+						if e != nil {
+							return "ERR"
+						}
+						a2 = o.Fn(fresh, h)
+						return ""
+					})
+					r.Case(fmt.Sprintf("caps\x00%s\x00%d\x00%s", p, k, o.API), a2 != "nil" && a2 != "[]")
+					if res != "" || a1 != a2 {
+						t.Disagreements++
+						r.Violate(fmt.Sprintf("%s of %q [%s], call %d of a history on %q: aged value=%s fresh value=%s %s", o.API, p, strat, k, h, a1, a2, res),
+							map[string]any{"pattern": p, "strategy": strat, "api": o.API, "call_index": k, "haystack_hex": hexOf(h), "aged": a1, "fresh": a2}, false)
+						break
+					}
+				}
+			}
+		}
+	}
 	// ---- (b) API level: aged value vs fresh value
 	{
 		t := r.Tie("Regex: aged value == fresh value, call by call")
